@@ -9,7 +9,9 @@
 (* know the mode the caller gave the descriptor: it forces O_NONBLOCK for      *)
 (* the duration of the call and puts the caller's mode back afterwards, and a  *)
 (* would-block goes straight back to the caller only if the caller chose       *)
-(* non-blocking.  One action per step of a call that touches the flag.         *)
+(* non-blocking.  One action per step of a call that touches the flag: the     *)
+(* look at the caller's mode (is_blocking) and the forcing (set_non_blocking)  *)
+(* are two steps - callers on different threads interleave between them.       *)
 (*                                                                             *)
 (* Intended design (Deviations = {}): the runtime counts the calls that have   *)
 (* the descriptor forced non-blocking; the caller's mode is "blocking" when    *)
@@ -26,7 +28,7 @@ Dev(d) == d \in Deviations
 VARIABLES userNb,   \* the mode the caller gave the descriptor (TRUE = non-blocking); it does not change
           flag,     \* O_NONBLOCK of the descriptor right now
           forced,   \* number of calls in progress that have forced the descriptor non-blocking
-          pc,       \* [Callers -> "idle" | "in" | "wait"]
+          pc,       \* [Callers -> "idle" | "looked" | "in" | "wait"]
           believes, \* [Callers -> what the call in progress took for the caller's mode: TRUE = blocking]
           enters,   \* [Callers -> calls made]
           last,     \* [Callers -> outcome of the last call: "none" | "ok" | "eagain_at_once" | "eagain_timeout"]
@@ -37,14 +39,19 @@ Init == /\ userNb \in BOOLEAN /\ flag = userNb /\ forced = 0
         /\ pc = [c \in Callers |-> "idle"] /\ believes = [c \in Callers |-> FALSE]
         /\ enters = [c \in Callers |-> 0] /\ last = [c \in Callers |-> "none"] /\ askedBlk = FALSE
 
-Enter(c) ==
+\* is_blocking: what mode did the caller choose?
+Look(c) ==
   /\ pc[c] = "idle" /\ enters[c] < MaxEnters
-  /\ LET blk == IF Dev("mode_from_flag") THEN ~flag ELSE (~flag \/ forced > 0) IN
-     /\ believes' = [believes EXCEPT ![c] = blk]
-     /\ flag' = IF blk THEN TRUE ELSE flag
-     /\ forced' = IF blk /\ ~Dev("mode_from_flag") THEN forced + 1 ELSE forced
-  /\ pc' = [pc EXCEPT ![c] = "in"] /\ enters' = [enters EXCEPT ![c] = @ + 1]
-  /\ UNCHANGED <<userNb, last, askedBlk>>
+  /\ believes' = [believes EXCEPT ![c] = IF Dev("mode_from_flag") THEN ~flag ELSE (~flag \/ forced > 0)]
+  /\ pc' = [pc EXCEPT ![c] = "looked"] /\ enters' = [enters EXCEPT ![c] = @ + 1]
+  /\ UNCHANGED <<userNb, flag, forced, last, askedBlk>>
+\* set_non_blocking, if the caller's mode is blocking
+Enter(c) ==
+  /\ pc[c] = "looked"
+  /\ flag' = IF believes[c] THEN TRUE ELSE flag
+  /\ forced' = IF believes[c] /\ ~Dev("mode_from_flag") THEN forced + 1 ELSE forced
+  /\ pc' = [pc EXCEPT ![c] = "in"]
+  /\ UNCHANGED <<userNb, believes, enters, last, askedBlk>>
 
 Leave(c, r) ==
   /\ pc' = [pc EXCEPT ![c] = "idle"] /\ last' = [last EXCEPT ![c] = r]
@@ -69,7 +76,7 @@ Wake(c) == /\ pc[c] = "wait" /\ pc' = [pc EXCEPT ![c] = "in"]
 Timeout(c) == /\ pc[c] = "wait" /\ Leave(c, "eagain_timeout")
               /\ UNCHANGED <<userNb, believes, enters, askedBlk>>
 
-Next == \E c \in Callers : Enter(c) \/ Wake(c) \/ Timeout(c) \/ \E resp \in {"ok", "wouldblock"} : Ask(c, resp)
+Next == \E c \in Callers : Look(c) \/ Enter(c) \/ Wake(c) \/ Timeout(c) \/ \E resp \in {"ok", "wouldblock"} : Ask(c, resp)
 Spec == Init /\ [][Next]_vars
 
 ------------------------------------------------------------------------------
